@@ -9,9 +9,9 @@ import (
 	"github.com/lugu/qiloop/internal/zzverif/sym"
 )
 
-// C01RoundTrip: any valid message written to a buffer has the documented layout and reads back identical.
-func C01RoundTrip() {
-	n := sym.Choose("n", 3)
+// ---- independent statement of the documented layout (doc/about-qimessaging.md) ----
+
+func c01SymHeader() Header {
 	hdr := Header{
 		Magic:   Magic,
 		ID:      sym.U32("id"),
@@ -24,6 +24,26 @@ func C01RoundTrip() {
 	}
 	sym.Assume(hdr.Type >= 1)
 	sym.Assume(hdr.Type <= 8)
+	return hdr
+}
+
+func c01Layout(hdr Header, payload []byte) []byte {
+	n := uint32(len(payload))
+	exp := []byte{0x42, 0xde, 0xad, 0x42,
+		byte(hdr.ID), byte(hdr.ID >> 8), byte(hdr.ID >> 16), byte(hdr.ID >> 24),
+		byte(n), byte(n >> 8), byte(n >> 16), byte(n >> 24),
+		0, 0, hdr.Type, hdr.Flags,
+		byte(hdr.Service), byte(hdr.Service >> 8), byte(hdr.Service >> 16), byte(hdr.Service >> 24),
+		byte(hdr.Object), byte(hdr.Object >> 8), byte(hdr.Object >> 16), byte(hdr.Object >> 24),
+		byte(hdr.Action), byte(hdr.Action >> 8), byte(hdr.Action >> 16), byte(hdr.Action >> 24)}
+	return append(exp, payload...)
+}
+
+// c01RoundTrip: any valid message written to a buffer has exactly the documented layout and
+// reads back identical, consuming exactly header+payload bytes (trailing garbage untouched).
+func c01RoundTrip(maxN int) {
+	n := sym.Choose("n", maxN+1)
+	hdr := c01SymHeader()
 	payload := sym.Bytes("payload", n)
 	msg := NewMessage(hdr, payload)
 	var buf bytes.Buffer
@@ -31,15 +51,7 @@ func C01RoundTrip() {
 	sym.Assert(err == nil, "write-ok")
 	wire := buf.Bytes()
 	sym.Assert(len(wire) == 28+n, "wire-length")
-	exp := []byte{0x42, 0xde, 0xad, 0x42,
-		byte(hdr.ID), byte(hdr.ID >> 8), byte(hdr.ID >> 16), byte(hdr.ID >> 24),
-		byte(n), 0, 0, 0,
-		0, 0, hdr.Type, hdr.Flags,
-		byte(hdr.Service), byte(hdr.Service >> 8), byte(hdr.Service >> 16), byte(hdr.Service >> 24),
-		byte(hdr.Object), byte(hdr.Object >> 8), byte(hdr.Object >> 16), byte(hdr.Object >> 24),
-		byte(hdr.Action), byte(hdr.Action >> 8), byte(hdr.Action >> 16), byte(hdr.Action >> 24)}
-	exp = append(exp, payload...)
-	sym.Assert(sym.EqBytes(wire, exp), "wire-layout")
+	sym.Assert(sym.EqBytes(wire, c01Layout(hdr, payload)), "wire-layout")
 
 	var back Message
 	r := bytes.NewReader(append(append([]byte{}, wire...), 0xAA, 0xBB))
@@ -49,5 +61,208 @@ func C01RoundTrip() {
 	sym.Assert(sym.EqBytes(back.Payload, payload), "payload-roundtrip")
 	sym.Assert(r.Len() == 2, "consumed-exactly")
 	sym.Reach("roundtrip-done")
-	_ = io.EOF
+}
+
+func C01RoundTrip()     { c01RoundTrip(3) }
+func C01RoundTripDeep() { c01RoundTrip(12) }
+
+// ---- fragmenting reader / short writer ----
+
+// fragReader delivers data in chunks that end at the given cut positions; the final chunk may
+// be returned together with io.EOF (legal for an io.Reader).
+type fragReader struct {
+	data    []byte
+	pos     int
+	cuts    []int
+	eofWith bool
+	calls   int
+}
+
+func (f *fragReader) Read(p []byte) (int, error) {
+	f.calls++
+	if f.pos >= len(f.data) {
+		return 0, io.EOF
+	}
+	end := len(f.data)
+	for _, c := range f.cuts {
+		if c > f.pos && c < end {
+			end = c
+		}
+	}
+	if end-f.pos > len(p) {
+		end = f.pos + len(p)
+	}
+	n := copy(p, f.data[f.pos:end])
+	f.pos += n
+	if f.pos == len(f.data) && f.eofWith {
+		return n, io.EOF
+	}
+	return n, nil
+}
+
+type shortWriter struct {
+	out  []byte
+	cuts []int
+}
+
+func (w *shortWriter) Write(p []byte) (int, error) {
+	end := len(w.out) + len(p)
+	for _, c := range w.cuts {
+		if c > len(w.out) && c < end {
+			end = c
+		}
+	}
+	n := end - len(w.out)
+	w.out = append(w.out, p[:n]...)
+	return n, nil
+}
+
+func c01Cuts(label string, k, total int) []int {
+	cuts := make([]int, k)
+	prev := 0
+	for i := range cuts {
+		// non-decreasing cut positions in [prev,total]; a cut at 0/total/prev is "no cut"
+		c := sym.Concrete(sym.Int(label, prev, total))
+		cuts[i] = c
+		prev = c
+	}
+	return cuts
+}
+
+// c01Fragmented: the byte stream is fragmented at up to k free positions on the write side
+// (short writes) and at up to k free positions on the read side (short reads, the last one
+// possibly together with EOF): the message still reads back identical.
+func c01Fragmented(maxN, k int, writeSide bool) {
+	n := sym.Choose("n", maxN+1)
+	hdr := c01SymHeader()
+	payload := sym.Bytes("payload", n)
+	msg := NewMessage(hdr, payload)
+	total := 28 + n
+
+	if writeSide {
+		w := &shortWriter{cuts: c01Cuts("wcut", k, total)}
+		err := msg.Write(w)
+		sym.Assert(err == nil, "short-write-ok")
+		sym.Assert(sym.EqBytes(w.out, c01Layout(hdr, payload)), "short-write-layout")
+		sym.Reach("short-write-done")
+		return
+	}
+	r := &fragReader{data: append(c01Layout(hdr, payload), 0xCC), cuts: c01Cuts("rcut", k, total), eofWith: sym.Bool("eof-with-data")}
+	var back Message
+	err := back.Read(r)
+	sym.Assert(err == nil, "frag-read-ok")
+	sym.Assert(back.Header == msg.Header, "frag-header")
+	sym.Assert(sym.EqBytes(back.Payload, payload), "frag-payload")
+	sym.Assert(r.pos == total, "frag-consumed-exactly")
+	sym.Reach("frag-done")
+}
+
+func C01ShortWrite()     { c01Fragmented(2, 1, true) }
+func C01Fragmented()     { c01Fragmented(2, 1, false) }
+func C01ShortWriteDeep() { c01Fragmented(4, 2, true) }
+func C01FragmentedDeep() { c01Fragmented(4, 2, false) }
+
+// C01ExactEOF: the stream ends exactly after the message and the reader reports data together
+// with EOF, or EOF on the next call: the message is still accepted.
+func C01ExactEOF() {
+	n := sym.Choose("n", 3)
+	hdr := c01SymHeader()
+	payload := sym.Bytes("payload", n)
+	msg := NewMessage(hdr, payload)
+	total := 28 + n
+	r := &fragReader{data: c01Layout(hdr, payload), cuts: c01Cuts("rcut", 1, total), eofWith: sym.Bool("eof-with-data")}
+	var back Message
+	err := back.Read(r)
+	sym.Assert(err == nil, "eof-read-ok")
+	sym.Assert(back.Header == msg.Header, "eof-header")
+	sym.Assert(sym.EqBytes(back.Payload, payload), "eof-payload")
+	sym.Reach("eof-done")
+}
+
+// c01Sequence: messages written back-to-back on one stream read back as the same sequence.
+func c01Sequence(count, maxN, k int) {
+	var wire []byte
+	hdrs := make([]Header, count)
+	pls := make([][]byte, count)
+	for i := 0; i < count; i++ {
+		n := sym.Choose("n", maxN+1)
+		hdrs[i] = c01SymHeader()
+		pls[i] = sym.Bytes("payload", n)
+		msg := NewMessage(hdrs[i], pls[i])
+		var buf bytes.Buffer
+		sym.Assert(msg.Write(&buf) == nil, "seq-write-ok")
+		wire = append(wire, buf.Bytes()...)
+	}
+	r := &fragReader{data: wire, cuts: c01Cuts("rcut", k, len(wire)), eofWith: sym.Bool("eof-with-data")}
+	off := 0
+	for i := 0; i < count; i++ {
+		var back Message
+		err := back.Read(r)
+		sym.Assert(err == nil, "seq-read-ok")
+		want := NewMessage(hdrs[i], pls[i])
+		sym.Assert(back.Header == want.Header, "seq-header")
+		sym.Assert(sym.EqBytes(back.Payload, pls[i]), "seq-payload")
+		off += 28 + len(pls[i])
+		sym.Assert(r.pos == off, "seq-offset")
+	}
+	var extra Message
+	sym.Assert(extra.Read(r) == io.EOF, "seq-eof-after-last")
+	sym.Reach("seq-done")
+}
+
+func C01Sequence()     { c01Sequence(2, 1, 1) }
+func C01SequenceDeep() { c01Sequence(3, 2, 1) }
+
+// countingReader hands out the 28 header bytes and records every byte requested afterwards.
+type countingReader struct {
+	hdr        []byte
+	pos        int
+	afterCalls int
+	maxWant    int
+}
+
+func (c *countingReader) Read(p []byte) (int, error) {
+	if c.pos < len(c.hdr) {
+		n := copy(p, c.hdr[c.pos:])
+		c.pos += n
+		return n, nil
+	}
+	c.afterCalls++
+	if len(p) > c.maxWant {
+		c.maxWant = len(p)
+	}
+	return 0, io.EOF
+}
+
+// C01Reject: for ANY 28 header bytes: a header with wrong magic, version, type or an over-limit
+// size is refused before any payload byte is requested; a valid header is never refused by the
+// header check (size 0 succeeds; size>0 proceeds to request the payload, never more than the limit).
+func C01Reject() {
+	sym.SetAllocBudget(int(MaxPayloadSize))
+	raw := sym.Bytes("hdr", 28)
+	magic := uint32(raw[0])<<24 | uint32(raw[1])<<16 | uint32(raw[2])<<8 | uint32(raw[3])
+	size := uint32(raw[8]) | uint32(raw[9])<<8 | uint32(raw[10])<<16 | uint32(raw[11])<<24
+	version := uint16(raw[12]) | uint16(raw[13])<<8
+	typ := raw[14]
+	valid := sym.And(sym.And(magic == 0x42dead42, version == 0),
+		sym.And(sym.And(typ >= 1, typ <= 8), size <= 10*1024*1024))
+	r := &countingReader{hdr: raw}
+	var m Message
+	err := m.Read(r)
+	sym.Assert(r.maxWant <= int(MaxPayloadSize), "payload-buffer-over-limit")
+	if r.afterCalls == 0 {
+		if err != nil {
+			sym.Assert(sym.Not(valid), "valid-header-refused")
+			sym.Reach("refused")
+		} else {
+			sym.Assert(valid, "invalid-header-accepted")
+			sym.Assert(size == 0, "nonzero-size-without-payload-read")
+			sym.Assert(len(m.Payload) == 0, "empty-payload")
+			sym.Reach("accepted-empty")
+		}
+	} else {
+		sym.Assert(valid, "payload-read-after-invalid-header")
+		sym.Assert(err != nil, "truncated-payload-accepted")
+		sym.Reach("payload-requested")
+	}
 }
